@@ -7,6 +7,8 @@ AS_H = 'src/tbb/arena_slot.h'
 TD_CPP = 'src/tbb/task_dispatcher.cpp'
 PF_H = 'include/oneapi/tbb/parallel_for.h'
 MB_H = 'src/tbb/mailbox.h'
+TGC_CPP = 'src/tbb/task_group_context.cpp'
+CD_H = 'src/tbb/cancellation_disseminator.h'
 TDH = 'src/tbb/task_dispatcher.h'
 PR_H = 'include/oneapi/tbb/parallel_reduce.h'
 TG_H = 'include/oneapi/tbb/task_group.h'
@@ -173,6 +175,43 @@ MUTANTS = [
          "            ed_ext.task_disp->allow_fifo_task(fifo_task_allowed);\n        });\n\n        if (fifo_task_allowed) finalize();\n        return nullptr;")]),
     dict(name='c03-zombie-flag-missing', prop='C03', clause='D4', edits=[
         (PR_H, "        parent_ptr->has_right_zombie = true;", "        ")]),
+    # ---------------------------------------------------------------- C04
+    dict(name='c04-cancel-load-store', prop='C04', clause='D1', edits=[
+        (TGC_CPP, "if (ctx.my_cancellation_requested.load(std::memory_order_relaxed) || ctx.my_cancellation_requested.exchange(1)) {",
+         "if (ctx.my_cancellation_requested.load(std::memory_order_relaxed) || (ctx.my_cancellation_requested.store(1), false)) {")]),
+    dict(name='c04-cancel-always-true', prop='C04', clause='D1', edits=[
+        (TGC_CPP, "        // not missing out on any cancellation still being propagated, and a context cannot be uncanceled.)\n        return false;",
+         "        // not missing out on any cancellation still being propagated, and a context cannot be uncanceled.)\n        return true;")]),
+    dict(name='c04-register-before-snapshot', prop='C04', clause='D4', edits=[
+        (TGC_CPP, "        uintptr_t local_count_snapshot = ctx.my_parent->my_context_list->epoch.load(std::memory_order_acquire);",
+         "        register_with(ctx, td);\n        uintptr_t local_count_snapshot = ctx.my_parent->my_context_list->epoch.load(std::memory_order_acquire);"),
+        (TGC_CPP, "        register_with(ctx, td); // Issues full fence\n\n        // If no state propagation was detected by the following condition, the above", "\n        // If no state propagation was detected by the following condition, the above")]),
+    dict(name='c04-snapshot-relaxed', prop='C04', clause='D4', edits=[
+        (TGC_CPP, "ctx.my_parent->my_context_list->epoch.load(std::memory_order_acquire);", "ctx.my_parent->my_context_list->epoch.load(std::memory_order_relaxed);")]),
+    dict(name='c04-recopy-unlocked', prop='C04', clause='D4', edits=[
+        (TGC_CPP, "            context_state_propagation_mutex_type::scoped_lock lock(the_context_state_propagation_mutex);\n", "")]),
+    dict(name='c04-propagate-no-ancestor-test', prop='C04', clause='D2', edits=[
+        (TGC_CPP, "            if (ancestor == &src) {\n                for (d1::task_group_context* c = &ctx; c != ancestor; c = c->my_parent)\n                    (c->*mptr_state).store(new_state, std::memory_order_relaxed);\n                break;\n            }",
+         "            {\n                for (d1::task_group_context* c = &ctx; c != ancestor; c = c->my_parent)\n                    (c->*mptr_state).store(new_state, std::memory_order_relaxed);\n                break;\n            }")]),
+    dict(name='c04-epoch-after-walk', prop='C04', clause='D3', edits=[
+        (CD_H, "        ++the_context_state_propagation_epoch;\n", ""),
+        (CD_H, "            thr_data.propagate_task_group_state(mptr_state, src, new_state);\n        }\n", "            thr_data.propagate_task_group_state(mptr_state, src, new_state);\n        }\n        ++the_context_state_propagation_epoch;\n")]),
+    dict(name='c04-list-epoch-before-walk', prop='C04', clause='D3', edits=[
+        ('src/tbb/thread_data.h', "    mutex::scoped_lock lock(my_context_list->m_mutex);\n    // Acquire fence is necessary",
+         "    mutex::scoped_lock lock(my_context_list->m_mutex);\n    my_context_list->epoch.store(the_context_state_propagation_epoch.load(std::memory_order_relaxed), std::memory_order_release);\n    // Acquire fence is necessary"),
+        ('src/tbb/thread_data.h', "    // reordering of possible store to *mptr_state after the sync point.\n    my_context_list->epoch.store(the_context_state_propagation_epoch.load(std::memory_order_relaxed), std::memory_order_release);",
+         "    // reordering of possible store to *mptr_state after the sync point.")]),
+    dict(name='c04-bind-without-cas', prop='C04', clause='D5', edits=[
+        (TGC_CPP, "            ctx.my_state.compare_exchange_strong(state, d1::task_group_context::state::locked)\n#endif",
+         "            (ctx.my_state.store(d1::task_group_context::state::locked), true)\n#endif")]),
+    dict(name='c04-bind-isolated', prop='C04', clause='D5', edits=[
+        (TGC_CPP, "if (td->my_task_dispatcher->m_execute_data_ext.context == td->my_arena->my_default_ctx || !ctx.my_traits.bound) {",
+         "if (td->my_task_dispatcher->m_execute_data_ext.context == td->my_arena->my_default_ctx) {")]),
+    dict(name='c04-propagation-lock-dropped', prop='C04', clause='D4', edits=[
+        (CD_H, "        context_state_propagation_mutex_type::scoped_lock propagation_lock(the_context_state_propagation_mutex);\n", "")]),
+    dict(name='c04-reset-elsewhere', prop='C04', clause='D2', edits=[
+        (TGC_CPP, "bool task_group_context_impl::is_group_execution_cancelled(const d1::task_group_context& ctx) {\n",
+         "bool task_group_context_impl::is_group_execution_cancelled(const d1::task_group_context& ctx) {\n    if (ctx.my_parent && !ctx.my_parent->my_cancellation_requested.load(std::memory_order_relaxed)) const_cast<d1::task_group_context&>(ctx).my_cancellation_requested.store(0, std::memory_order_relaxed);\n")]),
 ]
 
 BENIGN = [
@@ -192,4 +231,7 @@ BENIGN = [
     dict(name='c03-b-store-seqcst', prop='C03', edits=[
         (TDH, "ed.context->my_exception.store(tbb_exception_ptr::allocate(), std::memory_order_release);",
          "ed.context->my_exception.store(tbb_exception_ptr::allocate());")]),
+    dict(name='c04-b-cas-instead-of-exchange', prop='C04', edits=[
+        (TGC_CPP, "if (ctx.my_cancellation_requested.load(std::memory_order_relaxed) || ctx.my_cancellation_requested.exchange(1)) {",
+         "std::uint32_t exp0 = 0;\n    if (ctx.my_cancellation_requested.load(std::memory_order_relaxed) || !ctx.my_cancellation_requested.compare_exchange_strong(exp0, 1)) {")]),
 ]
